@@ -293,6 +293,25 @@ def main():
             descr.append(replay)
         except ValueError:
             dist["unprintable"] += 1
+    # ---- numbers that are not built-in int / float (what numpy, decimal and fractions hand over through the API): a Number
+    #      parameter keeps their value -- decimals stay decimals -- or rejects them with the parameter error ----
+    from decimal import Decimal
+    from fractions import Fraction
+    dist["foreign_numbers"] = 0
+    for v in [numpy.float32(0.75), numpy.float16(0.5), numpy.float64(-1.5), Decimal("2.5"), Decimal("-0.125"), Fraction(5, 2), Fraction(-3, 4),
+              numpy.int16(3), numpy.uint8(7), numpy.int64(-4), numpy.float32(2.5)]:
+        for label, prm, raw in (("Number", P.NumberParameter(), v), ("List of Number", P.ListParameter(P.NumberParameter()), [v, 1, v])):
+            o = run_clean(prm, raw, prog)
+            evaluations += 1
+            dist["foreign_numbers"] += 1
+            if o[0] == "ok":
+                got = o[1] if isinstance(o[1], list) else [o[1]]
+                want = raw if isinstance(raw, list) else [raw]
+                if len(got) != len(want) or any(not (g == w) for g, w in zip(got, want)):
+                    fails.append({"sig": "C20:not-typed", "what": "clean() of %s on %r (%s) returned %r: the value changed" % (label, raw, type(v).__name__, o[1]),
+                                  "replay": {"parameter": label, "value": repr(raw), "value_type": type(v).__name__}})
+            elif o[1] not in ("ParameterNotValid",):
+                fails.append({"sig": "C20:raw-exception", "what": "clean() of %s on %r let %s escape" % (label, raw, o[1]), "replay": {"parameter": label, "value": repr(raw)}})
     # ---- whole programs: loading, validating and running a model cleans every argument at least twice; the raw arguments the
     #      program holds (and therefore what to_string() writes) are the same before and after ----
     def tagged(v):
